@@ -256,6 +256,12 @@ func (in *objIndex) control() error {
 		if in.Fields[fn].Len() != in.len() {
 			return fmt.Errorf("index and fields index must have the same size, len(index)=%d len(index[%s])=%d", in.len(), fn, in.Fields[fn].Len())
 		}
+		// same size is not enough, every object must have its entry
+		for id := range in.ObjectIds {
+			if _, ok := in.Fields[fn].objectIds[id]; !ok {
+				return fmt.Errorf("%w: object %d has no entry in index of field %s", ErrMalformedIndex, id, fn)
+			}
+		}
 	}
 	return nil
 }
